@@ -261,10 +261,15 @@ theorem c02_npm_deviation_gt_partial :
 theorem c02_npm_deviation_hyphen_partial :
     npmVerdict "1.2.3 - 2".toList "2.5.0".toList = some false ∧ refNpm "1.2.3 - 2".toList "2.5.0".toList = some true := by decide
 /-! F-C02-3: grammar deviations -/
-theorem c02_npm_deviation_space_after_op :
-    npmVerdict ">= 16.0.0".toList "16.0.0".toList = none ∧ refNpm ">= 16.0.0".toList "16.0.0".toList = some true := by decide
-theorem c02_npm_deviation_star_component :
-    npmVerdict "1.*".toList "1.2.3".toList = none ∧ refNpm "1.*".toList "1.2.3".toList = some true := by decide
+/-- (repaired, part of F-C02-3) a blank between an operator and its version is read as node-semver reads it -/
+theorem c02_npm_space_after_op :
+    npmVerdict ">= 16.0.0".toList "16.0.0".toList = some true ∧ refNpm ">= 16.0.0".toList "16.0.0".toList = some true ∧
+    npmVerdict ">= 1.0.0 < 2.0.0".toList "1.5.0".toList = some true ∧ refNpm ">= 1.0.0 < 2.0.0".toList "1.5.0".toList = some true := by decide
+/-- (repaired, part of F-C02-3) every wildcard spelling of node-semver is read: `1.*`, `1.2.*`, `x`, `X` -/
+theorem c02_npm_wildcards :
+    npmVerdict "1.*".toList "1.2.3".toList = some true ∧ refNpm "1.*".toList "1.2.3".toList = some true ∧
+    npmVerdict "x".toList "1.2.3".toList = some true ∧ refNpm "x".toList "1.2.3".toList = some true ∧
+    npmVerdict "1.2.*".toList "1.3.0".toList = some false ∧ refNpm "1.2.*".toList "1.3.0".toList = some false := by decide
 theorem c02_npm_deviation_empty :
     npmVerdict [] "1.2.3".toList = none ∧ refNpm [] "1.2.3".toList = some true := by decide
 theorem c02_npm_deviation_stacked_caret :
